@@ -293,3 +293,46 @@ func H_C15_SecretKeyConfig() {
 	vStreamSealed(c.out, key, conf.Label, conf.Label, "c15.cfg.str")
 	vCover("c15.cfg")
 }
+
+// C15 across payload sizes: user payloads of any size up to the packet / a few KiB on streams leave sealed. (Sizes
+// at which the send buffer has to grow are where in-place sealing can leave plaintext behind.)
+func H_C15_Sizes() {
+	vUnwind(20000)
+	f, key, label := vCryptoFix(vSelf)
+	m := f.m
+	f.vAddSelf(3, vBytes(1))
+	peer := f.vAddConcreteAlive(vPeerA, 2)
+	if vPick(2) == 1 {
+		peer.PMax = 2
+	}
+	to := Address{Addr: "10.0.0.2:7946", Name: vPeerA}
+	if vPick(2) == 0 {
+		n := vSize(1, 1300)
+		vAssert(m.SendBestEffort(&peer.Node, vNoise(n)) == nil, "c15.size.pkt-send")
+		vAssert(len(f.tr.packets) == 1, "c15.size.pkt-sent")
+		f.vAllPacketsSealed(key, label, "c15.size.pkt")
+		vCover("c15.size.pkt")
+	} else {
+		n := vSize(1, 4096)
+		out := &vConn{}
+		f.tr.conn = out
+		vAssert(m.sendUserMsg(to, vNoise(n)) == nil, "c15.size.str-send")
+		vStreamSealed(out.out, key, label, label, "c15.size.str")
+		vCover("c15.size.str")
+	}
+}
+
+func init() { vRegister("H_C15_Sizes", H_C15_Sizes) }
+
+// vNoise: n concrete bytes that LZW cannot shrink much (so that the size on the wire follows n natively as well)
+func vNoise(n int) []byte {
+	b := make([]byte, n)
+	x := uint32(2463534242)
+	for i := range b {
+		x ^= x << 13
+		x ^= x >> 17
+		x ^= x << 5
+		b[i] = byte(x >> 11)
+	}
+	return b
+}
